@@ -104,6 +104,8 @@ func init() {
 		Explain: "Decides the rejection clause and the wiring of coordinate addressing: (S1) every non-error iteration path of Ltoi's coordinate loop has established coord >= 0 and coord < size, and the scalar branch accepts only 0; (S2) in At/SetAt/MaskAt/SetMaskAt every path to Get/Set/mask[...] has passed the arity check and the error check of the offset computation and uses exactly that offset, at() is Ltoi over the tensor's own Shape() and Strides(), maskAt() is at(); (K3/K1arms) the typed Get/Set/Memset arms of array and storage.Header use only accessors and assertions of their own label type and agree with their sibling arms; (S8) stride-routine selection by data order. " +
 			"Not decided: that CalcStrides* compute the right products and that Ltoi's sum is the rank in data order (value arithmetic); behaviour of the column-major converting constructor.",
 		Run: func(rc *rules.RC) {
+			rules.O6(rc)
+			rules.V2(rc, 2)
 			rules.S19(rc)
 			rules.K1w(rc, func(stem string) bool { return strings.Contains(stem, "denseTranspose") }, 4)
 			rules.T7(rc)
@@ -184,6 +186,7 @@ func init() {
 		Explain: "Decides consistency of the iterator family, not its arithmetic: (I1) NextValidity reports !mask[i], NextValid stops on unmasked and NextInvalid on masked elements, in FlatMaskedIterator and MultIterator; (I2) NextValid and NextInvalid of one type are identical up to exactly that polarity; (I3) every path through FlatIterator.Reset rewrites every field the stepping functions mutate (done, nextIndex, track); (I4) the vector fast path addresses track/shape/strides through veclikeDim, which is the first axis of length != 1, and no vector arm uses a literal axis; (I5) the multi-iterator's stride-block key is the digest of all stride elements; (I6) colMajorNDNext is ndNext with loop direction and done-axis reversed. " +
 			"Not decided - and this is the core of the property: that the odometer yields offsets in row-major coordinate order, the skip counts, coordinate tracking values.",
 		Run: func(rc *rules.RC) {
+			rules.I10(rc)
 			rules.I9(rc)
 			rules.I8(rc)
 			rules.I7(rc)
